@@ -17,7 +17,7 @@ lock table; `C20_lock_released` shows by induction over histories that every
 reachable state is one, so the one-command theorems below hold after every
 history.
 -/
-import TraitsVerif.Lemmas.SyncShapes
+import TraitsVerif.Lemmas.SyncTwoSided
 namespace TraitsVerif.Props.C20
 open TraitsVerif TraitsVerif.Py TraitsVerif.Model TraitsVerif.Model.Sync
 variable {α : Type}
@@ -239,6 +239,35 @@ theorem C20_partner_dead [DecidableEq α] (E : Sync.Env α) (w : World α) (o : 
   · intro n t op ht
     exact mutate_untouched E w' t (o, n) op hL' (hno n) (by rintro rfl; exact ht rfl)
 
+/-! ### Whole histories on one mutual link -/
+
+/-- **Convergence over two-sided histories** (by induction over the history).
+Two traits `p ≠ q` of the same kind (both scalar or both `List`) whose
+validators agree on what they store (`Compat`: what either returns, both store
+unchanged — e.g. the same idempotent trait type; `list.sort` permutes).  Start
+from any state satisfying the invariant `TwoSided` (e.g. freshly created
+objects, `C20_fresh_twoSided`) and run any history of: assignments (valid or
+invalid) to any trait of any object, every in-place list mutator on any list
+(all of C05's operations, extended slices included), `p.sync_trait(q)` /
+`q.sync_trait(p)` (mutual) and mutual removals at any point, garbage collection
+of any object at any point.  Then after every such history: the lock tables are
+empty, the link is either present in both directions or in neither, and
+whenever it is present both sides hold the same value — the same list. -/
+theorem C20_converge_history [DecidableEq α] (E : Sync.Env α) (p q : Pair) (hc : Compat E p q)
+    (w0 : World α) (h0 : TwoSided E p q w0) (cs : List (Cmd α)) (hcs : ∀ c ∈ cs, Allowed p q c) :
+    (World.run E w0 cs).locked = [] ∧
+    ((⟨p, q⟩ : Edge) ∈ (World.run E w0 cs).edges ↔ (⟨q, p⟩ : Edge) ∈ (World.run E w0 cs).edges) ∧
+    ((⟨p, q⟩ : Edge) ∈ (World.run E w0 cs).edges → (World.run E w0 cs).val p = (World.run E w0 cs).val q) :=
+  let h := TwoSided.run hc cs w0 h0 hcs
+  ⟨h.locked, h.both, h.conv⟩
+
+/-- Unlinked objects whose two traits hold values both validators store
+unchanged (e.g. the defaults) satisfy the invariant. -/
+theorem C20_fresh_twoSided (E : Sync.Env α) (p q : Pair) (w : World α) (hL : w.locked = [])
+    (he : w.edges = []) (hgp : GoodVal E p q (w.val p)) (hgq : GoodVal E p q (w.val q)) :
+    TwoSided E p q w :=
+  TwoSided.of_no_edges hL (by rw [he]; intro e h; cases h) hgp hgq
+
 /-! ### Where the code does not meet the statement -/
 
 def idEnv : Sync.Env Int :=
@@ -347,5 +376,33 @@ example :
     let E : Sync.Env Int := { idEnv with sv := fun p _ x => if p.1 = 1 ∧ x = 5 then .error .traitError else .ok x }
     ((hub.assign E (0, "x") (.s 5)).exc, (hub.assign E (0, "x") (.s 5)).world.val (1, "y"),
       (hub.assign E (0, "x") (.s 5)).world.val (2, "x")) = (none, .s 0, .s 5) := by decide
+
+/-- The hypotheses of `C20_converge_history` are satisfiable: identity
+validators on two list traits, fresh objects; and a history with extended
+slices, removal, re-linking from the other side and a partner death. -/
+example : Compat idEnv a b :=
+  { ne := by decide, kind := rfl,
+    spq := fun x y h => by cases h; exact ⟨rfl, rfl⟩, sqp := fun x y h => by cases h; exact ⟨rfl, rfl⟩,
+    ipq := fun k x y h k' => by cases h; exact ⟨rfl, rfl⟩, iqp := fun k x y h k' => by cases h; exact ⟨rfl, rfl⟩,
+    sort := fun _ l => List.Perm.refl l }
+
+example : TwoSided idEnv a b fresh :=
+  C20_fresh_twoSided idEnv a b fresh rfl rfl ⟨rfl, fun x hx => by cases hx⟩ ⟨rfl, fun x hx => by cases hx⟩
+
+def history : List (Cmd Int) :=
+  [.link a b true, .assign a (.l [1, 2, 3, 4, 5]), .mutate b (.setSlice ⟨some 4, some 0, some (-2)⟩ [8, 9]),
+   .mutate a (.delSlice ⟨none, none, some 2⟩), .unlink b a true, .mutate a (.append 7), .link b a true,
+   .mutate b (.sort 0), .mutate a .reverse]
+
+example : (∀ c ∈ history, Allowed a b c) := by
+  intro c hc
+  simp only [history, List.mem_cons, List.mem_nil_iff, or_false] at hc
+  rcases hc with rfl | rfl | rfl | rfl | rfl | rfl | rfl | rfl | rfl <;> constructor
+
+example :
+    (World.run idEnv fresh history).val a = .l [4, 2] ∧ (World.run idEnv fresh history).val b = .l [4, 2] ∧
+    (World.run idEnv fresh (history.take 6)).val a = .l [2, 4, 7] ∧
+    (World.run idEnv fresh (history.take 6)).val b = .l [2, 4] ∧
+    (World.run idEnv fresh (history.take 4)).val b = .l [2, 4] := by decide
 
 end TraitsVerif.Props.C20
